@@ -89,6 +89,11 @@ def poisson(
         else:
             slope_max = slope
 
+        # Stop once the interval is too narrow to change the mask: bisecting
+        # further never ends when the bounds become adjacent floats.
+        if slope_max - slope_min <= 1e-12 * max(nx, ny):
+            break
+
     if abs(actual_accel - accel) >= tol:
         raise ValueError(f"Cannot generate mask to satisfy accel={accel}.")
 
